@@ -652,6 +652,15 @@ class Interp:
         v = self._const_cache.get(name)
         if v is not None:
             return v
+        if name.startswith('ZeroSized: {closure@'):
+            v = Closure(name[12:-1], [])
+            self._const_cache[name] = v
+            return v
+        if name.startswith('ZeroSized: '):
+            name2 = name[11:]
+            v = FnItem(name2)
+            self._const_cache[name] = v
+            return v
         simple = strip_generics(name).split('::')[-1].strip()
         items = self.prog.const_items.get(simple)
         m = re.match(r'^(.*)::promoted\[(\d+)\]$', name.strip())
@@ -975,7 +984,8 @@ class Interp:
         if type(fv) is Ref:
             fv = fv.get()
         if type(fv) is Closure:
-            es = self.prog.closures.get(fv.span)
+            sp = fv.span[8:] if fv.span.startswith('closure@') else fv.span
+            es = self.prog.closures.get(sp)
             if not es:
                 # span text in the aggregate is 'file:l:c: l:c'
                 raise Inconclusive('closure body not found: %s' % fv.span)
